@@ -179,6 +179,8 @@ func opsOn(k *run.K, t model.Tree) {
 		ft, iss := treeOf(f)
 		want := forceTree(t, target)
 		k.Check("force", model.Equal(ft, want) && len(iss) == 0, "ForceCoordinatesType(%v): %s %v", target, model.Diff(ft, want), iss)
+		hp := shared.HiddenPayload(f)
+		k.Check("force", hp == "", "ForceCoordinatesType(%v): a dropped dimension is still there: %s", target, hp)
 	}
 	// chains: a dimension that was dropped must not come back with its old values
 	for _, t1 := range model.CTypes {
